@@ -20,7 +20,7 @@ def run(ctx, only=None):
     for r in recs:
         if 'sequences' in r:
             ctx.evaluations += r['sequences']
-            ctx.nontrivial.update(range(max(0, r['sequences'] - 40)))
+            ctx.nontrivial_counted += r['sequences_with_2_or_more_operations'] + r['concurrent_rounds']
             ctx.cov.update(r)
             ctx.sample(r)
             if r['concurrent_rounds'] and r['insert_if_absent_lost_races'] == 0:
